@@ -126,7 +126,8 @@ def cmp_cert(c, r):
     return d
 
 
-LP_ORDER = [0x52, 0x53, 0x62, 0x320, 0x32c, 0x330, 0x334, 0x340, 0x348, 0x344, 0x34c, 0x350, 0x50]
+# NDNLPv2: header fields in order of increasing type number, the fragment last
+LP_ORDER = [0x52, 0x53, 0x62, 0x320, 0x32c, 0x330, 0x334, 0x340, 0x344, 0x348, 0x34c, 0x350, 0x50]
 
 
 def lp_in_order(types):
@@ -186,6 +187,16 @@ def cmp_lp(v, r):
         d.append('nack')
     if bl(v.fragment) != r['fragment']:
         d.append('fragment')
+    # the other headers the format defines, as the library hands them out
+    for key in ('incoming_face_id', 'next_hop_face_id', 'congestion_mark'):
+        exp = None if r.get(key) is None else int.from_bytes(r[key], 'big')
+        if getattr(v, key) != exp:
+            d.append(key)
+    for key in ('ack', 'tx_sequence', 'prefix_announcement'):
+        if bl(getattr(v, key)) != r.get(key):
+            d.append(key)
+    if bool(v.non_discovery) != (r.get('non_discovery') is not None):
+        d.append('non_discovery')
     return d
 
 
@@ -401,6 +412,13 @@ def corpus(ctx, rng):
         out.append(('lp', rc.make_lp(fragment=frag, pit_token=rng.choice([None, b'', b'\x01\x02\x03\x04', gen.rand_bytes(rng, 32)]),
                                      nack_reason=rng.choice([None, None, 0, 50, 150, 2**40]), nack=rng.random() < 0.1, headers=hdrs,
                                      frag_index=rng.choice([None, None, None, None, 0, 1, 5]), frag_count=rng.choice([None, None, None, None, 0, 1, 2, 7]))))
+    # every header field the format defines at once, in canonical order (increasing type number), and every adjacent pair of them
+    ALL_H = [(0x32c, rc.enc_nni(300)), (0x330, b'\x07'), (0x334, rc.enc_tlv(0x335, b'\x01')), (0x340, b'\x02'), (0x344, b'\x00' * 7 + b'\x21'),
+             (0x348, b'\x00' * 7 + b'\x22'), (0x34c, b''), (0x350, b'announce')]
+    out.append(('lp', rc.make_lp(fragment=base[0], pit_token=b'\x01\x02', headers=ALL_H)))
+    for i_ in range(len(ALL_H) - 1):
+        out.append(('lp', rc.make_lp(fragment=base[i_ % len(base)], headers=ALL_H[i_:i_ + 2])))
+    out.append(('lp', rc.make_lp(fragment=None, headers=ALL_H[4:6])))
     import datetime
     for _ in range(ctx.n(4, 192)):
         kind = rng.choice(['ecdsa256', 'ecdsa256', 'rsa', 'ed25519'])
